@@ -1,4 +1,4 @@
-import MpfVerif.Lemmas.DriverCmds
+import MpfVerif.Lemmas.DriverTimers
 /-!
 # C08 — coils are never driven beyond their configured safety limits
 
@@ -262,5 +262,52 @@ theorem cmd_within_limits (c : Ctx) (s : Driver.St) (ops : List Op) : ∀ tc ∈
           obtain ⟨cmd, hc, rfl⟩ := h
           rw [fireDue_cmds _ cmd hc]; trivial
     · exact ih _ tc h
+
+/-- the state after any sequence of harness steps -/
+def runState (c : Ctx) : Driver.St → List Op → Driver.St
+  | s, [] => s
+  | s, op :: rest => runState c (step c s op).1 rest
+
+/-- one harness step (request + everything due, or a clock advance past any number of deadlines) keeps the
+software-pulse invariant: a coil switched on by a software-timed pulse has its switch-off timer pending, strictly
+in the future -/
+theorem step_keeps_soft_timer (c : Ctx) (s : Driver.St) (op : Op) (h : TimerInv s) : TimerInv (step c s op).1 := by
+  unfold step
+  split
+  · rename_i dt
+    exact advanceTo_inv 3 s (s.now + dt) h.pre (by have := pending_le_two s; omega) (by omega)
+  · split
+    · rename_i s1 o1 hop
+      exact (fireDue_inv s1 (doOp_pre c s s1 _ o1 h.pre hop).1).1
+    · exact (fireDue_inv s h.pre).1
+
+/-- **C08, software-timed pulses**: after every history of requests and clock advances, whenever the coil is on
+because of a software-timed pulse, its `timed_disable` timer is registered for a strictly later instant — so the
+pulse cannot outlive its timer "whatever else happens in between" (other pulses, enables, disables, the hold-limit
+timer firing, same-instant coincidences). -/
+theorem soft_pulse_always_has_timer (c : Ctx) (ops : List Op) : TimerInv (runState c {} ops) := by
+  have key : ∀ (s : Driver.St), TimerInv s → TimerInv (runState c s ops) := by
+    induction ops with
+    | nil => intro s h; exact h
+    | cons op rest ih => intro s h; exact ih _ (step_keeps_soft_timer c s op h)
+  exact key {} (fun h => by simp at h)
+
+/-- … and when the clock reaches that instant the coil is switched off: firing at a time at which `timed_disable`
+is due emits `disable` and clears the software-pulse flag -/
+theorem soft_timer_fires (s : Driver.St) (d : Nat) (h : s.timedDisable = some d) (hd : d ≤ s.now) :
+    Cmd.disable ∈ (fireDue s).2 ∧ (fireDue s).1.softOn = false ∧ (fireDue s).1.timedDisable = none := by
+  unfold fireDue
+  simp only [h, hd, if_true, doDisable]
+  cases hl : s.limitDue with
+  | none => simp
+  | some l => by_cases hc : l ≤ s.now <;> simp [hc]
+
+/-- non-vacuity: a 300 ms software pulse on a coil with nothing configured, then 125 ms, then another, then 400 ms:
+one enable, one re-armed timer, one disable exactly 300 ms after the second pulse -/
+example :
+    let c : Ctx := ⟨fun k => if k = "max_pulse_power" then .flt 1000000 else .none,
+                    fun k => if k = "max_pulse" then .int 255 else .int 10⟩
+    (runOps c {} [.pulse (.int 300) .none, .advance 125, .pulse (.int 300) .none, .advance 400]).map (fun tc => tc.1)
+      = [0, 125, 425] := by decide
 
 end MpfVerif.C08
